@@ -1,15 +1,15 @@
 SPECIFICATION GenSpec
 CONSTANTS
-  Orgs <- Orgs3Coll
-  Indexes <- IndexNamesSim
-  Aliases <- AliasNames
-  Exprs <- ExprsSim
-  DelExprs <- DelExprsSim
+  Orgs <- OrgsColl
+  Indexes <- IndexNamesColl
+  Aliases <- NoAliases
+  Exprs <- ExprsColl
+  DelExprs <- DelExprsColl
   TermsOf <- Terms
   Matches <- Match
   IsWild <- Wild
   GenMode = "plain"
-  MaxOps = 6
+  MaxOps = 4
   FixDelete = FALSE
   FixRegistry = FALSE
 CONSTRAINT Emit
